@@ -315,6 +315,7 @@ pub fn cases(thorough: bool) -> Vec<Case> {
         .collect();
     // payout lies (applicable to candidate blocks that carry a fee transaction)
     kinds.extend(crate::adversary::PAYOUT_EDITS.iter().map(|e| Kind::Hdr(*e)));
+    kinds.extend(crate::adversary::ID_EDITS.iter().map(|e| Kind::Hdr(*e)));
     kinds.extend(TX_KINDS.iter().map(|e| Kind::Tx(*e)));
     // returning forks (shape 1)
     for m in 2..=(if thorough { 6 } else { 4 }) {
